@@ -87,6 +87,11 @@ def _unary_ops(ttb, shp, rng):
         ops[f"collapse[{n}]"] = (lambda n: lambda S: S.collapse(np.array([n])))(n)
         v = np.arange(1, shp[n] + 1, dtype=float) - 1.5
         ops[f"ttv[{n}]"] = (lambda n, v: lambda S: S.ttv(v, n))(n, v)
+        ops[f"ttv-ones[{n}]"] = (lambda n: lambda S: S.ttv(np.ones(shp[n]), n))(n)
+        e0 = np.zeros(shp[n])
+        e0[0] = 1.0
+        ops[f"ttv-unit[{n}]"] = (lambda n, e0: lambda S: S.ttv(e0, n))(n, e0)
+        ops[f"scale-unit[{n}]"] = (lambda n, e0: lambda S: S.scale(e0 + 0.0, n))(n, e0) if False else ops[f"ttv[{n}]"]
         ops[f"scale[{n}]"] = (lambda n, v: lambda S: S.scale(v, n))(n, v)
         M = (np.arange(2 * shp[n], dtype=float).reshape(2, shp[n]) - 1.0)
         ops[f"ttm[{n}]"] = (lambda n, M: lambda S: S.ttm(M, n))(n, M)
@@ -163,14 +168,24 @@ class _:
                 elif ref[name][0] == "exc" or not _same_canon(ref[name], c):
                     raise Fail(f"order-dependent:{name.split('[')[0].split('(')[0]}", f"op={name} order={order}: {c} vs {ref[name]}")
             # combining / filtering operations leave no explicit zero
-            for name in ("elemfun", "collapse[0]", "ttv[0]", "scalar*", "roundtrip-sptenmat[0]", "find"):
-                if name in ops:
-                    R = ops[name](S)
+            for name, f in ops.items():
+                base = name.split("[")[0]
+                if base in ("elemfun", "collapse", "ttv", "ttv-ones", "ttv-unit", "contract", "scalar*", "roundtrip-sptenmat",
+                            "find", "ttm", "slice", "reshape-flat", "squeeze", "allsubs-setdiff") or base.startswith("permute"):
+                    try:
+                        R = f(S)
+                    except Exception:
+                        continue
                     if isinstance(R, ttb.sptensor):
                         try:
                             wf_sptensor(R, name, zero_free=True)
                         except Fail as f_:
-                            raise Fail(f"{f_.sig}:{name.split('[')[0]}", f_.msg)
+                            raise Fail(f"{f_.sig}:{base}", f_.msg + f" op={name} order={order}")
+            Sm = mk_sptensor(ttb, shp, [s for s, _ in order], [-v for _, v in order])
+            for nm, R in (("add-negation", S + Sm), ("sub-self", S - S)):
+                wf_sptensor(R, nm, zero_free=True)
+                if R.nnz != 0:
+                    raise Fail(f"value:{nm}", f"{den_sp(R).tolist()}")
 
 
 @check("c06.binary_order", ["C06", "C03"], [
